@@ -52,7 +52,7 @@ class Capture:
         def hook(orig, args, kwargs):
             res = orig(*args, **kwargs)
             v = res[0] if isinstance(res, tuple) else res
-            self.events.append(("stat", name, float(to_np(v)), args[0]))
+            self.events.append(("stat", name, float(to_np(v)), args[0], [float(x) for x in to_np(args[1])] if len(args) > 1 else None))
             return res
         return hook
 
@@ -289,8 +289,12 @@ def check_captured(case, shard, cap):
     ts = case["test_stat"]
     mu_call = 0.0 if ts == "q0" else case["mu"]
     base = case.get("base", "normal")
-    cap.events.clear()
     try:
+        if case.get("previous_data"):
+            # the same model object has already served a test of OTHER data: nothing of it may be remembered
+            pyhf.infer.hypotest(mu_call, list(case["previous_data"]) + list(model.config.auxdata), model, test_stat=ts, calc_base_dist=base)
+            shard.covered("model_reuse", "second dataset tested on the same model object")
+        cap.events.clear()
         res = pyhf.infer.hypotest(mu_call, data, model, test_stat=ts, calc_base_dist=base, return_tail_probs=True, return_expected_set=True)
     except E.FailedMinimization:
         shard.skip("fit reported failure")
@@ -300,6 +304,19 @@ def check_captured(case, shard, cap):
         shard.skip("test-statistic calls not observed")
         return
     q, qA = stats[0][2], stats[1][2]
+    # the dataset of the second statistic call is the Asimov dataset: it must be the model expectation at the fit of
+    # THIS data conditional on the Asimov hypothesis (recomputed here through the public fit)
+    amu = 1.0 if ts == "q0" else 0.0
+    try:
+        apars = pyhf.infer.mle.fixed_poi_fit(amu, data, model)
+        want = [float(x) for x in to_np(model.expected_data(apars))]
+        used = stats[1][4]
+        if used is None or len(used) != len(want) or any(abs(a - b) > 1e-6 * abs(b) + 1e-9 for a, b in zip(used, want)):
+            shard.violate(f"C08/asimov-data:{ts}", f"Asimov dataset used {used} but the expectation at the mu={amu} conditional fit of the tested data is {want}; previous data on the same model: {case.get('previous_data')}; backend={case['backend']}", case, "asimov_data")
+        else:
+            shard.ok("asimov_data")
+    except E.FailedMinimization:
+        shard.skip("fit reported failure")
     want_fn = {"q": "qmu", "qtilde": "qmu_tilde", "q0": "q0"}[ts]
     if any(s[1] != want_fn for s in stats[:2]):
         shard.violate("C08/wrong-statistic", f"requested {ts} but observed calls {[s[1] for s in stats[:2]]}", case, "captured_formula")
@@ -361,8 +378,11 @@ def make_generated(rng, backend):
     pars[model.config.poi_index] = rng.choice([0.0, 1.0, 2.0])
     rates = [float(x) for x in to_np(model.expected_actualdata(pars))]
     data = [float(gen.poisson_draw(rng, x)) for x in rates]
-    return {"spec": spec, "data": data, "mu": rng.choice([0.5, 1.0, 2.0, 4.0]), "test_stat": rng.choice(["qtilde", "q", "q0"]),
+    case = {"spec": spec, "data": data, "mu": rng.choice([0.5, 1.0, 2.0, 4.0]), "test_stat": rng.choice(["qtilde", "q", "q0"]),
             "base": rng.choice(["normal", "clipped_normal"]), "backend": backend}
+    if rng.random() < 0.5:
+        case["previous_data"] = [float(gen.poisson_draw(rng, x * rng.choice([0.7, 1.4]))) for x in rates]
+    return case
 
 
 def plan(tier, seed):
